@@ -32,6 +32,7 @@ func (v Violation) String() string { return fmt.Sprintf("%s %s: %s", v.Prop, v.C
 
 type judge struct {
 	lease map[string]int64 // task id -> guaranteed lease end (claim or last timely heartbeat + ttl)
+	ttl   map[string]int64 // task id -> the ttl its current holder asked for (claim or create-with-task)
 	s     *Sim
 	out   []Violation
 	reqBy map[string]*ReqRec
@@ -132,7 +133,7 @@ func inTicks(ts []int64, v int64) bool {
 
 // Judge evaluates every statement-derived invariant on the trace of s.
 func Judge(s *Sim) []Violation {
-	j := &judge{lease: map[string]int64{}, s: s, reqBy: map[string]*ReqRec{}, txsBy: map[string][]*TxRec{}, sends: map[string][]*SendRec{}}
+	j := &judge{lease: map[string]int64{}, ttl: map[string]int64{}, s: s, reqBy: map[string]*ReqRec{}, txsBy: map[string][]*TxRec{}, sends: map[string][]*SendRec{}}
 	for _, r := range s.Reqs {
 		j.reqBy[r.Id] = r
 	}
@@ -481,7 +482,9 @@ func (j *judge) txTask(tx *TxRec, req *ReqRec, reqTicks []int64, c core.Change, 
 				ct := req.Req.CreatePromiseAndTask.Task
 				if a.I("state") != tClaimed || a.S("process_id") != ct.ProcessId || a.I("ttl") != int64(ct.Ttl) || !inTicks(reqTicks, a.I("expires_at")-a.I("ttl")) {
 					j.add("C08", "B1", "", "create-with-task stored task %s other than claimed by the requesting process with lease = clock + ttl: %s", c.Key, core.RowString(a))
+					j.add("C07", "T4", "", "task %s created for holder %s with ttl %d but stored as %s (lease must be clock + ttl and renew by that ttl)", c.Key, ct.ProcessId, ct.Ttl, core.RowString(a))
 				}
+				j.ttl[c.Key] = int64(ct.Ttl)
 			} else if a.I("state") != tInit {
 				j.add("C08", "B1", "", "invocation task %s born in state %d", c.Key, a.I("state"))
 			}
@@ -547,6 +550,7 @@ func (j *judge) txTask(tx *TxRec, req *ReqRec, reqTicks []int64, c core.Change, 
 			claims[k] = append(claims[k], req.Id)
 			j.lease[c.Key] = a.I("expires_at")
 			cr := req.Req.ClaimTask
+			j.ttl[c.Key] = int64(cr.Ttl)
 			if a.S("process_id") != cr.ProcessId || a.I("ttl") != int64(cr.Ttl) || !inTicks(reqTicks, a.I("expires_at")-a.I("ttl")) {
 				j.add("C07", "T4", "", "task %s claimed by %s but stored holder/lease is %s (lease must be a clock reading of the request + ttl; window %v)", c.Key, req, core.RowString(a), rel(reqTicks))
 			}
@@ -608,6 +612,9 @@ func (j *judge) txTask(tx *TxRec, req *ReqRec, reqTicks []int64, c core.Change, 
 			// read the clock in time but whose write lands at or after the lease end races with a sweep that has
 			// already read the expired row; the statement promises nothing for it.)
 			j.lease[c.Key] = a.I("expires_at")
+		}
+		if want, tracked := j.ttl[c.Key]; ok && tracked && !inTicks(reqTicks, a.I("expires_at")-want) {
+			j.add("C07", "T4", "", "heartbeat of %s renewed task %s to %d, not to clock + the ttl %d its holder asked for (window %v, tx#%d)", b.S("process_id"), c.Key, a.I("expires_at")-Base, want, rel(reqTicks), tx.Seq)
 		}
 		if !ok || a.S("process_id") != b.S("process_id") || a.I("ttl") != b.I("ttl") || ac != bc || !inTicks(reqTicks, a.I("expires_at")-a.I("ttl")) {
 			j.add("C07", "T4", "", "claimed task %s modified other than by a heartbeat of its holder to clock+ttl (tx#%d %s): %s -> %s", c.Key, tx.Seq, tx.ReqId, core.RowString(b), core.RowString(a))
@@ -1270,6 +1277,14 @@ func (j *judge) respSchedule(r *ReqRec) {
 		case t_api.StatusScheduleAlreadyExists:
 			if ins || (s != nil && cr.IdempotencyKey != nil && s.IdempotencyKey != nil && *s.IdempotencyKey == *cr.IdempotencyKey) {
 				j.add("C10", "S4", "", "%s refused (409) although it repeats the key of the stored schedule %v", r, s)
+			}
+			// judged against the stored schedule (the response need not carry one): a refusal is justified only if, at
+			// some committed state of the request window, a schedule existed whose key the request does not repeat
+			if !j.existsSnap(r, func(sn core.Snapshot) bool {
+				row, ok := sn["schedules"][cr.Id]
+				return ok && (cr.IdempotencyKey == nil || row.Null("idempotency_key") || row.S("idempotency_key") != string(*cr.IdempotencyKey))
+			}) {
+				j.add("C10", "S4", "", "%s refused (409) although at no committed state between its submission and its response did a schedule exist whose idempotency key it does not repeat (re-creating a schedule id is idempotent by key)", r)
 			}
 		}
 	case t_api.DeleteSchedule:
